@@ -136,8 +136,13 @@ Definition check_hostname (hostname : bytes) : res unit :=
 Definition labels_fit (name : bytes) : bool :=
   forallb (fun l => label_fits (blen l)) (name_labels name).
 
-Definition check_label_lengths (name : bytes) : res unit :=
-  if labels_fit name then Ok tt else Err.
+(* check_label_lengths since 4c6b25c: the name as given AND its lower-cased form (the daemon's
+   map keys, under which some queries are sent) must fit.  Unicode case mapping is not
+   modelled: `lc` stands for str::to_lowercase and is an explicit argument everywhere (the
+   theorems hold for every function `lc`; the drivers instantiate it with the lower-cased
+   spellings computed by the Rust std library for the names of the case at hand). *)
+Definition check_label_lengths (lc : bytes -> bytes) (name : bytes) : res unit :=
+  if labels_fit name && labels_fit (lc name) then Ok tt else Err.
 
 Definition valid_instance_name (name : bytes) : bool :=
   instance_min_parts <=? N.of_nat (length (split_on DOT name)).
@@ -169,25 +174,25 @@ Definition si_names (ty_domain my_name host_name : bytes)
 
 (* ---- the argument checks of the public API ------------------------------------------------ *)
 
-Definition api_browse (service_type : bytes) : res unit :=
+Definition api_browse (lc : bytes -> bytes) (service_type : bytes) : res unit :=
   let? _ := check_domain_suffix service_type in
-  check_label_lengths service_type.
+  check_label_lengths lc service_type.
 
-Definition api_resolve_hostname (hostname : bytes) : res unit :=
+Definition api_resolve_hostname (lc : bytes -> bytes) (hostname : bytes) : res unit :=
   let? _ := check_hostname hostname in
-  check_label_lengths hostname.
+  check_label_lengths lc hostname.
 
-Definition api_register_names (fullname server : bytes) (sub : option bytes) : res unit :=
+Definition api_register_names (lc : bytes -> bytes) (fullname server : bytes) (sub : option bytes) : res unit :=
   let? _ := check_service_name fullname in
   let? _ := check_hostname server in
-  let? _ := check_label_lengths fullname in
-  let? _ := check_label_lengths server in
-  match sub with Some s => check_label_lengths s | None => Ok tt end.
+  let? _ := check_label_lengths lc fullname in
+  let? _ := check_label_lengths lc server in
+  match sub with Some s => check_label_lengths lc s | None => Ok tt end.
 
 (* ServiceInfo::new followed by ServiceDaemon::register *)
-Definition api_register (ty_domain my_name host_name : bytes) : res unit :=
+Definition api_register (lc : bytes -> bytes) (ty_domain my_name host_name : bytes) : res unit :=
   let? (ty, sub, fullname, server) := si_names ty_domain my_name host_name in
-  api_register_names fullname server sub.
+  api_register_names lc fullname server sub.
 
 (* ---- renaming after a conflict ------------------------------------------------------------ *)
 
